@@ -4,7 +4,7 @@
    terminated (no NoFuel), stayed inside every buffer it touched (no Oob), met no undefined behaviour (no Ub) and
    returned v, where v is written with the textbook functions of lib/Str.v and C13_Text.v. *)
 From Coq Require Import NArith ZArith Bool List.
-From CppUVerif Require Import lib.Str lib.CSem gen.Gen_Leaf C13_Text C13_Model C13_Proofs C13_Replace C13_Printable C13_Concat C13_Alloc C13_Atoi C13_Main C13_LeafTie.
+From CppUVerif Require Import lib.Str lib.CSem gen.Gen_LeafC13 C13_Text C13_Model C13_Proofs C13_Replace C13_Printable C13_Concat C13_Alloc C13_Atoi C13_Main C13_LeafTie.
 Import ListNotations.
 Local Open Scope N_scope.
 
